@@ -335,6 +335,14 @@ func c04Decode(w *mon.W, idx int) {
 	if kind == 3 && idx&1 == 0 {
 		bm = nil
 	}
+	if len(orig) >= 2 && idx%3 == 0 {
+		// a shorter bitmap of the same tree first (its trailing words omitted), the complete one right after: what the
+		// first call learned about the layout must not limit the second (round 12: a per-layout table grown on demand)
+		cut := 1 + idx%(len(orig)-1)
+		w.Op, w.A, w.B = "Decode(shorter bitmap of the same tree first)", int64(mask), int64(cut)
+		bmtree.Decode(int32(mask), orig[:cut:cut])
+		w.Bucket("decode/short-then-long-same-tree")
+	}
 	w.Op, w.A, w.B = "Decode", int64(mask), int64(len(bm))
 	got := bmtree.Decode(int32(mask), bm)
 	if !guard() {
